@@ -108,7 +108,7 @@ Section RmMirrors.
           let subset := rm_subset e in
           if has && negb extract then rm_list_go rest
           else if has && ps_empty subset then
-            remove_items s extract (list_elem t) toRemove item :: rm_list_go rest
+            remove_items s extract (list_elem t) subset item :: rm_list_go rest
           else if negb (ps_empty subset) then
             remove_items s extract (list_elem t) subset item :: rm_list_go rest
           else if extract then rm_list_go rest
@@ -125,7 +125,7 @@ Section RmMirrors.
           let e := PEField k in
           let ft := field_type t k in
           if ps_has [e] toRemove then
-            if extract then (k, remove_items s extract ft toRemove val) :: rm_map_go rest
+            if extract then (k, remove_items s extract ft (ps_with_prefix e toRemove) val) :: rm_map_go rest
             else rm_map_go rest
           else
             let subset := ps_with_prefix e toRemove in
